@@ -94,6 +94,9 @@ func ctSource(name string, ver int, variant string) string {
 		return fmt.Sprintf("access(all) contract %s {\n    access(all) var x: String\n    access(all) fun ver(): Int { return %d }\n    init() { self.x = \"\" }\n}", name, ver)
 	case "syntax":
 		return fmt.Sprintf("access(all) contract %s { access(all) var x: Int init( { self.x = %d } }", name, ver)
+	case "initfail":
+		// a valid program whose initializer aborts at run time: deploying it fails, updating to it is fine (initializers do not run on update)
+		return fmt.Sprintf("access(all) contract %s {\n    access(all) var x: Int\n    access(all) fun ver(): Int { return %d }\n    access(all) fun bump() { self.x = self.x + 1 }\n    init() { self.x = %d; if self.x >= 0 { panic(\"init of %s\") } }\n}", name, ver, ver*10, name)
 	}
 	panic("harness: contract variant " + variant)
 }
@@ -169,7 +172,7 @@ func (m *Model) applyContracts(o Op, pr *Pred) (string, bool) {
 	cur := c.get(o.A, o.S)
 	// Touched[key]: the contract was removed (or added and removed) earlier in this transaction. The language reference:
 	// "a contract cannot be removed and added again (redeployed) in the same transaction".
-	validProgram := o.M == "ok" || o.M == "enum" || o.M == "incompat"
+	validProgram := o.M == "ok" || o.M == "enum" || o.M == "incompat" || o.M == "initfail"
 	switch o.K {
 	case "ct.add":
 		if cur != nil || c.Touched[key] {
@@ -177,6 +180,9 @@ func (m *Model) applyContracts(o Op, pr *Pred) (string, bool) {
 		}
 		if !validProgram {
 			return FCtInvalid, true
+		}
+		if o.M == "initfail" {
+			return FPanic, true
 		}
 		if c.Accts[o.A] == nil {
 			c.Accts[o.A] = map[string]*Deployed{}
@@ -293,6 +299,8 @@ func (g *Gen) contractOp() Op {
 			variant = "misnamed"
 		case g.R.Chance(0.05):
 			variant = "syntax"
+		case g.R.Chance(0.12):
+			variant = "initfail"
 		}
 		if cur != nil && cur.Variant == "enum" && variant == "ok" && g.R.Chance(0.8) {
 			variant = "enum"
